@@ -141,6 +141,21 @@ type Sim struct {
 
 var cur atomic.Pointer[Sim]
 
+// siteHits accumulates, per worker process, which instrumentation sites were ever passed by a
+// simulated thread (reach measurement: "this code was actually exercised").
+var siteHits []uint8
+
+// SiteHits returns the names of all registered sites and whether each was reached in this process.
+func SiteHits() map[string]bool {
+	siteMu.Lock()
+	defer siteMu.Unlock()
+	out := make(map[string]bool, len(siteNames))
+	for id, n := range siteNames {
+		out[n] = int(id) < len(siteHits) && siteHits[id] != 0
+	}
+	return out
+}
+
 var budgets = []int{1 << 20, 1, 2, 3, 4, 5, 6, 8, 10, 13, 16, 20, 25, 32, 40, 50, 64, 80, 100, 128, 160, 200, 256, 512, 1024, 4096}
 
 var stallDur = []time.Duration{time.Microsecond, 50 * time.Microsecond, time.Millisecond, 7 * time.Millisecond, 60 * time.Millisecond, 900 * time.Millisecond, 11 * time.Second}
@@ -525,6 +540,14 @@ func (s *Sim) yield(site int32) {
 		runtime.Goexit()
 	}
 	th := s.running
+	if site >= 0 {
+		if int(site) >= len(siteHits) {
+			grown := make([]uint8, int(site)+1024)
+			copy(grown, siteHits)
+			siteHits = grown
+		}
+		siteHits[site] = 1
+	}
 	if th.noPreempt {
 		return
 	}
